@@ -1,31 +1,82 @@
 """C10 — Triangulate returns a correct triangulation of epsilon-valid polygons."""
 
+# Same options as vcheck's SAN_ENV except for the allocator tuning: the
+# triangulator allocates a tree/hash node per vertex and edge, and with the
+# default 256 MB quarantine + release-to-OS the harness spends >90% of its time
+# in madvise/page faults on a loaded machine (measured: 54 s -> 4.4 s per 300
+# cases). A 16 MB quarantine still covers every free made inside one call.
 _ASAN = ("abort_on_error=0:detect_leaks=0:allocator_may_return_null=1:max_allocation_size_mb=4096:exitcode=97:"
-         "handle_abort=1:detect_stack_use_after_return=0:malloc_context_size=12:quarantine_size_mb=64")
+         "handle_abort=1:detect_stack_use_after_return=0:malloc_context_size=4:quarantine_size_mb=16:"
+         "allocator_release_to_os_interval_ms=-1")
 
 CHECK = {
     "id": "C10",
     "level": "exploration",
-    "rule": "TBD",
-    "min_nontrivial": {"quick": 1000, "thorough": 5000},
+    "rule": ("stage valid: case = one polygon set that is epsilon-valid by construction (exactly simple star / x-monotone / "
+             "spiral / comb / needle-comb / convex contours under a random orientation-preserving affine map; holes and "
+             "islands inside inscribed discs of their parent, nesting depth <= 4; 1-3 faces in disjoint discs; scale "
+             "1e-9..1e9; then only perturbations that stay within epsilon of that set: collinear vertices exact or < eps/2 "
+             "off the edge, duplicates within eps/4), epsilon in {default -1, the default value passed explicitly, 0, up to "
+             "min(1e-3*size, 1% of the smallest contour clearance / mean contour width)}; cases whose epsilon cannot be kept "
+             "below that bound are skipped and counted. Both allowConvex settings, through Triangulate or TriangulateIdx "
+             "(permuted / gapped index labels), must EACH satisfy: indices are input indices; count = V-2+2h-2(o-1); every "
+             "input edge exactly once in input direction, its reverse absent, every other directed edge as often as its "
+             "reverse; every triangle CCW within epsilon in the library's own meaning (utils.h CCW with tol=2*eps as in "
+             "polygon.cpp CheckGeometry, most lenient vertex rotation, plus the oracle's rounding error); area sum = polygon "
+             "area within eps*perimeter + rounding. stage reuse: a sequence of 3..seqLen unrelated sets (valid and garbage, "
+             "alternating large/small) through one PolygonTriangulator vs a fresh EarClip and a fresh PolygonTriangulator: "
+             "halfedges, contourEnd, epsilon bit-identical; valid members also get the full oracle and the halfedge "
+             "pairing check. stage garbage: arbitrary finite input (lattice, random, mutated valid sets, extreme magnitudes, "
+             "collinear/identical points, star polygons, overlapping copies, repeated indices; any epsilon incl. 0 and "
+             "DBL_MAX): call returns, indices are input indices, exceptions other than the documented "
+             "geometryErr/topologyErr are reported. stage rings: enumerated ring-size configurations with 0/1/2-point "
+             "rings x epsilon x allowConvex. distinct_nontrivial = distinct signatures (valid: shape list, log2 V, holes, "
+             "outers, depth, epsilon class, perturbed; reuse: hash of the sequence; garbage: kind, log2 V, epsilon class; "
+             "rings: configuration) over cases where the library returned triangles and every oracle clause was decided."),
+    "min_nontrivial": {"quick": 3000, "thorough": 20000},
     "exhaustive": {"quick": False, "thorough": False},
     "stages": [
         {"name": "valid", "variant": "asan", "harness": "c10_triangulate.cpp",
-         "cases": {"quick": 20000, "thorough": 400000},
+         "cases": {"quick": 20000, "thorough": 300000},
          "params": {"mode": "valid", "maxVerts": {"quick": 600, "thorough": 6000}},
          "env": {"ASAN_OPTIONS": _ASAN}, "case_timeout": 120},
         {"name": "reuse", "variant": "asan", "harness": "c10_triangulate.cpp",
-         "cases": {"quick": 2000, "thorough": 40000},
-         "params": {"mode": "reuse", "maxVerts": {"quick": 400, "thorough": 3000}, "seqLen": {"quick": 10, "thorough": 20}},
+         "cases": {"quick": 2000, "thorough": 30000},
+         "params": {"mode": "reuse", "maxVerts": {"quick": 400, "thorough": 3000}, "seqLen": {"quick": 10, "thorough": 20},
+                    "minRing": 2},
          "env": {"ASAN_OPTIONS": _ASAN}, "case_timeout": 120},
         {"name": "garbage", "variant": "asan", "harness": "c10_triangulate.cpp",
-         "cases": {"quick": 20000, "thorough": 400000},
-         "params": {"mode": "garbage", "maxVerts": {"quick": 300, "thorough": 3000}, "minRing": 3},
-         "env": {"ASAN_OPTIONS": _ASAN}, "case_timeout": 60},
+         "cases": {"quick": 12000, "thorough": 200000},
+         "params": {"mode": "garbage", "maxVerts": {"quick": 300, "thorough": 3000}, "minRing": 2},
+         "env": {"ASAN_OPTIONS": _ASAN}, "case_timeout": 120},
         {"name": "rings", "variant": "asan", "harness": "c10_triangulate.cpp",
          "cases": {"quick": 72, "thorough": 72},
          "params": {"mode": "rings"}, "case_timeout": 60, "max_crashes": 40},
     ],
-    "assumptions": [],
+    "assumptions": [
+        "epsilon-validity of the 'valid' workload holds by construction (exactly simple, mutually disjoint contours; perturbations < epsilon); "
+        "epsilon is kept <= 1% of the smallest contour clearance and mean contour width so that which contours count as holes/outers in V-2+2h-2(o-1) is not in doubt",
+        "'counter-clockwise within epsilon' is read as the library publishes it: CCW(p0,p1,p2, 2*epsilon) >= 0 (polygon.cpp CheckGeometry), "
+        "evaluated on the longest edge; triangles between the tol=epsilon and tol=2*epsilon readings are counted, not decided",
+        "effective epsilon for epsilon<0 is 1e-12 * max|coordinate| (Rect::Scale()*kPrecision, polygon.cpp:690)",
+        "exceptions on invalid input: only manifold::geometryErr / topologyErr (MANIFOLD_DEBUG builds) are documented; none exist in the -DNDEBUG build under test",
+        "garbage and reuse stages exclude rings with < 2 points (they crash, see known findings); those are enumerated in stage 'rings'",
+        "g++ -fsanitize=address,undefined build of /repo's working tree, -DNDEBUG, MANIFOLD_PAR=-1; ASan quarantine reduced to 16 MB for these stages",
+    ],
 }
-TEXT = {"text": "TBD", "note": "TBD", "technique": "runtime monitoring", "design_ref": "DESIGN.md 4 C10"}
+
+TEXT = {
+    "text": ("Held on the executions observed: for constructed epsilon-valid polygon sets (nesting to depth 4, several outers, "
+             "collinear / duplicate-within-epsilon vertices, needle teeth down to 1e-12 of the contour size, scales 1e-9..1e9, "
+             "default, zero and explicit epsilon) every result of Triangulate / TriangulateIdx with allowConvex on and off has "
+             "exactly V-2+2h-2(o-1) triangles over input indices, uses every input edge once in input direction, pairs every "
+             "other edge with its reverse, is CCW within epsilon and sums to the polygon area; one reused PolygonTriangulator "
+             "gives bit-identical halfedges to fresh ones over sequences of unrelated inputs; arbitrary finite garbage returns "
+             "with in-range indices under ASan+UBSan. Known open findings: rings with 0 points are dereferenced (UB) and a lone "
+             "1-point ring throws std::length_error with allowConvex=true."),
+    "note": ("Sampling, not proof. Trusts the harness's generators (validity by construction) and oracle. Regularised outputs of "
+             "CrossSection Booleans and the repo's polygon corpus are not part of this workload. Termination is observed through "
+             "the driver's watchdog only."),
+    "technique": "runtime monitoring: generated epsilon-valid and hostile polygon workloads with an independent triangulation oracle and a differential reuse check, under ASan+UBSan",
+    "design_ref": "DESIGN.md 4 C10",
+}
